@@ -48,10 +48,32 @@ func checkTasks(p *Pipeline, scenario, engineName string) int {
 		p.setupVariant(variant, reqs, vi == 0)
 		bin, env := p.buildEngB(variant)
 		p.logf("[%s] pass M rewrote %d map-range sites, pass Y inserted %d yield points; searching %.0fs on %d workers (-race)", variant, p.Instr.MapRangeSites, p.Instr.YieldSites, tc.SearchBudget/float64(len(variants)), p.Workers)
+		// The search runs in rounds of fresh worker processes: state that is
+		// initialised lazily on first use (in generated code or runtime/) is
+		// fresh again in every round, so first-use races get many chances.
 		var m *merged
+		budget := tc.SearchBudget / float64(len(variants))
+		rounds := int(budget / 10)
+		if rounds < 1 {
+			rounds = 1
+		}
+		if rounds > 24 {
+			rounds = 24
+		}
 		p.timed("search", func() {
-			m = p.runBatch(batchSpec{Label: "engb-" + variant, Bin: bin, Workers: p.Workers, Count: 1 << 30, Budget: tc.SearchBudget / float64(len(variants)), Variant: variant, Params: params, Records: true, Shard: true, Env: env})
+			for r := 0; r < rounds; r++ {
+				mr := p.runBatch(batchSpec{Label: fmt.Sprintf("engb-%s-r%d", variant, r), Bin: bin, Workers: p.Workers, Count: 1 << 30, From: r * 1000000, Budget: budget / float64(rounds), Variant: variant, Params: params, Records: r == 0, Shard: true, Env: env})
+				if m == nil {
+					m = mr
+				} else {
+					m.absorb(mr)
+				}
+				if len(m.Violations) > 0 {
+					break
+				}
+			}
 		})
+		m.Stats["worker_process_rounds"] = int64(rounds)
 		if len(m.Violations) > 0 {
 			exit = p.handleViolations(engineName, "race", bin, m.Violations, variant, params, env, tc.MinimiseS)
 		}
